@@ -174,6 +174,118 @@ CLAIMED = {
              "trusted); independent RFC server; int() modelled for ASCII only; cryptographic strength of HMAC/PBKDF2 not claimed. No axioms.",
         technique="Coq model over abstract primitives (Section variables) + oracle-table correspondence + live tampering against an independent RFC server",
         design="5/C18"),
+    "C03": dict(
+        text="Machine-checked proof (Coq 8.16) over a per-partition model of Fetcher / TopicPartitionState / FetchResult composed "
+             "with the leader. For every accepted event sequence each run of deliveries is exactly the visible records in [start, "
+             "position), strictly increasing and contiguous; the position clauses hold; a stale reply or pending reset never "
+             "changes buffer or position and a seek takes effect for the very next record; nothing comes from paused or "
+             "filtered-out partitions; fault-free rounds strictly advance, including over control, aborted and emptied batches, and "
+             "reach the log end (model-level liveness: partial). The fetcher model refines an API-level specification automaton that "
+             "is itself proved exact. The real consumer runs under the deterministic simulator; every per-partition boundary trace, "
+             "application trace and scan must be accepted inside Coq with equal outputs, and independent monitors state the property "
+             "on the simulated logs.",
+        note="Trusted: Coq kernel; hand model tied by trace acceptance; which records of a batch are visible comes from the simulated "
+             "log (exactness of the filter is C08's theorem); simkit and refcodec as oracle; observation wrappers installed from "
+             "outside; one scheduler order per schedule (ASLR off for reproducibility). RecordTooLarge, TopicAuthorizationFailed and "
+             "two in-flight fetches to different leaders are not simulated. No axioms.",
+        technique="Coq invariant and refinement proofs over an LTS model and spec automaton + trace acceptance of the real consumer under deterministic simulation + monitors",
+        design="5/C03"),
+    "C10": dict(
+        text="Machine-checked proof (Coq 8.16, no axioms). For every byte list, both validate_crc settings and every decompression "
+             "function, the models of the compiled readers (MemoryRecords splitter, DefaultRecordBatch header/varints/records, "
+             "LegacyRecordBatch incl. _read_last_offset and the compressed wrapper) and of the pure-Python readers never read "
+             "outside the buffer, never run out of fuel and never end in SystemError, MemoryError or OverflowError; a batch whose "
+             "checksum field differs from its content's checksum is rejected by both. For the code as originally pinned the same "
+             "statements are refuted inside Coq by concrete witnesses at 8 sites (replayed on the real extension: ASan "
+             "heap-buffer-overflow, hang, SystemError/OverflowError/MemoryError) - repaired by six fix commits. On every run the "
+             "extension is rebuilt from the current .pyx under AddressSanitizer; truncated, mutated, boundary-valued, "
+             "nested-compressed, concatenated and random inputs are decoded by the real compiled and pure-Python readers, presented "
+             "as bytes and as exact-size foreign buffers; outcomes must equal the model's, and an independent monitor reports any "
+             "ASan report, signal, hang, non-ordinary exception or accepted checksum mismatch.",
+        note="Partial w.r.t. generated C: the theorems concern the index arithmetic of hand-written models tied to the code by the "
+             "per-run correspondence; Cython refcounting / Py_buffer handling are only sampled by ASan (reads inside a bytes "
+             "object's header or NUL terminator are invisible to it and counted). Trusted: Coq kernel; OCaml extraction for volume "
+             "(cross-checked against vm_compute on a sample every run); clang-14 ASan; codecs abstract in the theorems; compiled "
+             "theorems assume buffers and codec outputs shorter than 2^47 bytes.",
+        technique="Coq proof over instrumented-memory models of the readers + per-run differential correspondence under AddressSanitizer + runtime monitor",
+        design="5/C10"),
+    "C13": dict(
+        text="Machine-checked proof (Coq 8.16) over a per-partition start-position model (committed lookup via the coordinator or "
+             "group-less, ListOffsets reset, out-of-range handling, user seek / seek_to_*; the environment supplies the offset store "
+             "and the leader's answer log start / LSO / HW by isolation level). In every accepted trace without user repositioning "
+             "the first valid position is the committed offset if one exists, else the answer for the policy's strategy; after an "
+             "out-of-range report the same rule applies; NoOffsetForPartition and OffsetOutOfRange are raised only under policy "
+             "none; a seek or seek_to_* landing anywhere wins; failed lookups leave a state in which they are re-issued and the "
+             "fault-free continuation completes. The real consumer (group and group-less) runs under the simulator, including a "
+             "user call injected at every event index; traces must be accepted inside Coq with equal first/final position, origin "
+             "and surfaced errors, and monitors check positions and first records against the simulated log and offset store.",
+        note="Trusted: Coq kernel; hand model tied by trace acceptance; simkit as oracle (OffsetFetch group-level errors shaped as "
+             "Kafka v2+); observation wrappers; injected calls run at the next scheduling point after the chosen event. Two defects "
+             "found by this check are fixed in /repo. Per-partition COORDINATOR_NOT_AVAILABLE on OffsetFetch v0/v1 not explored. No axioms.",
+        technique="Coq invariant proofs over an LTS model + trace acceptance under deterministic simulation with exhaustive enumeration of seek insertion points + oracle monitors",
+        design="5/C13"),
+    "C14": dict(
+        text="Machine-checked proof (Coq 8.16) for all layouts and subscriptions (dict-key ids, set subscriptions): range and "
+             "round-robin assign every partition of every subscribed topic with metadata exactly once, to a subscribed member, and "
+             "nothing else; range slices are contiguous and within one per topic; round-robin is within one under identical "
+             "subscriptions and its skip loop terminates. For sticky, for arbitrary user data: every run of the abstract machine, "
+             "and every op log accepted by the control skeleton, yields a valid assignment; the state where the reassignment loop "
+             "stops is KIP-54 balanced (balance of a reverted result: partial); the three boolean checkers are sound and complete. "
+             "The real assignors agree with the models on the complete <=4-member x <=3-topic x 0..4-partition space and on random "
+             "inputs; every real sticky op log is accepted and every result passes the proved checkers.",
+        note="Trusted: Coq kernel and vm_compute; OCaml extraction + 20-line driver (re-evaluated on a sample inside Coq); stream "
+             "encoders and op-log wrappers; stub cluster with partitions 0..n-1. The sticky visiting order and hash-order choices "
+             "are abstracted; KIP-54 balance of a reverted result is searched, not proved (C14_sticky_balanced_full stays open). No axioms.",
+        technique="Coq proof over executable models (range, round-robin; sticky as abstract machine + checked control skeleton + proved checkers) + exhaustive-bounded and random correspondence",
+        design="5/C14"),
+    "C15": dict(
+        text="Machine-checked proof (Coq 8.16) at the control-skeleton level: with unchanged input and a valid, KIP-54-balanced "
+             "previous assignment the sticky result equals the previous assignment with an empty op log; with identical "
+             "subscriptions, after members leave, no Move happens, so survivors keep everything; consistent user data is taken "
+             "verbatim. The 'members joined' clause depends on the visiting order, which the model abstracts (partial): it is "
+             "searched exhaustively over all second rounds of the bounded space and two-step chains and on random chains of <=5 "
+             "rounds, all through the real user-data encoding.",
+        note="The user-data byte codec is not modelled (tied by correspondence). c15_plus_needs_visiting_order shows the model's "
+             "guards alone do not imply the 'members joined' clause. Same trusted base as C14. No axioms.",
+        technique="Coq proof at the control-skeleton level + two consecutive real assign() calls compared partition by partition through the real user-data encoding",
+        design="5/C15"),
+    "C07": dict(
+        text="Machine-checked proof (Coq 8.16, no axioms) over an LTS of several producer incarnations (application, sender "
+             "task, accumulator), the transaction coordinator and the partition leaders. For every accepted trace in which "
+             "the client meets its obligations, a read-committed reader sees all records and offsets of committed "
+             "transactions and none of aborted or open ones, including kills with in-doubt EndTxn and fencing by a "
+             "successor. Proved unconditionally for every accepted trace: every Produce and TxnOffsetCommit goes to a "
+             "partition or group the coordinator acknowledged for this transaction (add-before-produce, full strength); "
+             "EndTxn is sent only after all batches are acknowledged; nothing is written outside a transaction; writes from "
+             "fenced epochs are rejected. The one obligation the code does not guarantee, 'no failed batch at commit', is "
+             "refuted with a trace of the real producer (known finding, same root cause as C16). Liveness under retriable "
+             "faults is model-level, by variant (partial). The real producer runs under the deterministic simulator with "
+             "concurrent sends, offsets, fault, coordinator-move and kill schedules; every trace must be accepted inside Coq "
+             "with equal logs and outcomes, and independent monitors (a reference read-committed reader, coordinator-side "
+             "and leader-side protocol checks, liveness) state the property on the simulated cluster.",
+        note="Trusted: Coq kernel; hand model tied by trace acceptance; simulated coordinator and leaders (reviewed against "
+             "Kafka semantics) as oracle; observation wrappers; model guards (sender stops after a fatal error; no fatal "
+             "before a pid); one scheduler order per schedule. Atomicity carries obligations 2-4 as hypotheses, of which 3 "
+             "and 4 are monitored on every run and 2 is the known finding. No axioms.",
+        technique="Coq invariant proofs over a multi-party LTS + trace acceptance of the real producer under deterministic simulation with fault and kill injection + monitors",
+        design="5/C07"),
+    "C16": dict(
+        text="Machine-checked proof (Coq 8.16, no axioms) over an executable model of the transactional API (state, "
+             "registered partitions/group, per-handler error classification), with TransactionState.is_transition_valid "
+             "translated from source on every run. Proved: illegal calls have no effect and send nothing; legal calls are "
+             "not refused; the protocol order is accepted; ABORTABLE_ERROR is entered only by abortable-class errors, keeps "
+             "what is registered and is left only through abort, which sends EndTxn(ABORT) iff something is registered; "
+             "FATAL_ERROR is absorbing and entered only by fatal-class errors; the model refines a 7-state specification "
+             "automaton. The clause 'every fatal-class error makes the transaction fatal' is proved for coordinator "
+             "requests and refuted for Produce responses (known finding). The real AIOKafkaProducer runs under the "
+             "deterministic simulator on exhaustive short call programs, single faults at every request position, and "
+             "scripted and random programs; each run must equal the model evaluated inside Coq (results, requests, state), "
+             "and independent monitors state the property on the coordinator.",
+        note="Trusted: Coq kernel; py2gallina for the transition table (validated per run); hand model tied by program "
+             "equality; simulated transaction coordinator; wrappers installed from outside. Sequential API calls only "
+             "(concurrency is C07). No axioms.",
+        technique="Coq proofs by finite vm_compute sweeps + refinement of a spec automaton + program-level correspondence under deterministic simulation + monitors",
+        design="5/C16"),
 }
 
 ALL = [f"C{i:02d}" for i in range(1, 20)]
